@@ -35,7 +35,7 @@ REQUIRED_CLASSES = ['opened-by-relative-name-then-directory-changed', 'offset-in
                     'full-file', 'record-with-thousands-of-fits', 'same-source-twice', 'blank-padded-names', 'same-source-object-changed-in-place']
 TIMEOUT = {'quick': 300, 'thorough': 900}
 
-KINDS_QUICK = ['f0', 'f1m', 'f3m', 'f3', 'f1L', 'f3mx', 'f1D', 'f1mP', 'f1S', 'f3mW', 'f3mE']          # D: same source content as the record before it; P: blank-padded names; S: the very same Source object, changed in place
+KINDS_QUICK = ['f0', 'f1m', 'f3m', 'f3', 'f1L', 'f3mx', 'f1D', 'f1mP', 'f1S', 'f3mW', 'f3mE', 'f0m']          # D: same source content as the record before it; P: blank-padded names; S: the very same Source object, changed in place
 KINDS_ALL = ['f0', 'f0m', 'f1', 'f1m', 'f3', 'f3m', 'f1L', 'f3mL', 'f3mx', 'f3x', 'f0L', 'f1mL', 'f1D', 'f3mD', 'f1mP', 'f3P', 'f1S', 'f3mS', 'f3mW', 'f1W', 'f3mE', 'f3Ex']
 
 
@@ -43,9 +43,17 @@ def setup(tier, seed):
     kinds = KINDS_QUICK if tier == 'quick' else KINDS_ALL
     files = []
     lfull = 2
+    # quick tier: all pairs over the first nine kinds; the newer kinds (wide names, ties, a zero-fit record with stored fluxes) alone and
+    # paired, in both orders, with three of the others.  thorough: every pair over all kinds.
+    core = kinds if tier != 'quick' else kinds[:9]
     for L in range(1, lfull + 1):
-        for seq in itertools.product(kinds, repeat=L):
+        for seq in itertools.product(core, repeat=L):
             files.append(list(seq))
+    for kx in [k_ for k_ in kinds if k_ not in core]:
+        files.append([kx])
+        for ky in ('f1m', 'f3m', 'f0'):
+            files.append([kx, ky])
+            files.append([ky, kx])
     # covering longer sequences: rotations, seed decides the rotation offset
     rng = np.random.default_rng(seed)
     n_long = 6 if tier == 'quick' else 40
@@ -127,7 +135,7 @@ def _record(kind, idx, meta):
     if 'E' in kind and n >= 2:        # the last two fits exactly tied at 1e30, or (with x) both infinite
         i.chi2 = i.chi2.copy()
         i.chi2[-2:] = np.inf if 'x' in kind else 1e30
-    i.model_id = np.array([2, 0, 1][:n])
+    i.model_id = np.array([200000, 70, 300][:n])          # indices into a grid of several hundred thousand models, of which only a few fits were kept
     if 'W' in kind:        # names that spell out the parameters: 48 characters, the first 47 shared
         i.model_name = np.array(['grid_model_with_all_its_parameters_spelled_out_' + c_ for c_ in 'cab'][:n])
     else:
